@@ -13,7 +13,8 @@ from .common import loc
 EXPLANATION = (
     "static analysis of the 20 shape terms: abstract interpretation of membership() over the extended-sign domain with "
     "x = NaN and arbitrary numeric parameters must yield exactly {NaN} (NaN-in => NaN-out, precise enough that a "
-    "redundant mask may be removed but a needed one may not); def-use rules: the height and every shape parameter "
+    "redundant mask may be removed but a needed one may not); with x = +inf / -inf and finite parameters (widths and "
+    "deviations positive, slopes non-zero) the result must lie in {zero, pos}: never NaN, infinite or negative; def-use rules: the height and every shape parameter "
     "stored by the constructor reach the returned value (directly or through a nested term they construct); "
     "is_monotonic() is True iff the class overrides tsukamoto(); elementwise safety of every kernel (C02/V1)"
 )
@@ -21,7 +22,15 @@ ASSUMPTIONS = [
     "equality with the closed form, range [0,h], 'NaN only if x is NaN' and monotonicity are numeric and not decided",
     "parameters are numbers (finite or infinite), height > 0",
 ]
-FLOORS = {"A1": 20, "D1": 20, "D2": 50, "M1": 26, "V1": 20}
+FLOORS = {"A1": 20, "A1b": 36, "D1": 20, "D2": 50, "M1": 26, "V1": 20}
+
+# positive-by-definition parameters (valid parameterisations): widths and standard deviations; slopes are non-zero
+POSITIVE = {"width", "standard_deviation", "standard_deviation_a", "standard_deviation_b"}
+NONZERO = {"slope", "rising", "falling"}
+INF_EXEMPT = {
+    "Ramp": "start == end is answered with NaN by design (the degenerate mask `increasing == decreasing`); not expressible without relating start and end",
+    "Discrete": "values are arbitrary user data, the range clause does not apply",
+}
 
 SHAPES = ["Arc", "Bell", "Binary", "Concave", "Cosine", "Discrete", "Gaussian", "GaussianProduct", "PiShape", "Ramp", "Rectangle",
           "SemiEllipse", "Sigmoid", "SigmoidDifference", "SigmoidProduct", "Spike", "SShape", "Trapezoid", "Triangle", "ZShape"]
@@ -63,6 +72,29 @@ def run(check: Check) -> None:
         check.require(ok, "A1", f"{name}.membership/nan", f"membership(NaN) = {show_abs(v)}" + ("" if ok else
                       ": a NaN input can yield a number (the NaN mask is missing where comparisons swallow NaN)"), loc(fn),
                       {"result": show_abs(v)}, exhaustive=True, cases=1)
+        # A1b: at x = +inf and x = -inf (finite parameters) the value is a number in [0, h]: never NaN, never infinite, never negative
+        if name in INF_EXEMPT:
+            check.notes.append(f"A1b not applied to {name}: {INF_EXEMPT[name]}")
+        else:
+            from ..absint import NINF, ZERO
+
+            for xv in (PINF, NINF):
+                def env_inf(term: Term, xname=xname, xv=xv):
+                    if term == ("param", xname):
+                        return Abs({xv})
+                    if term[0] == "attr" and term[1] == ("param", "self"):
+                        if term[2] == "height" or term[2] in POSITIVE:
+                            return Abs({POS})
+                        if term[2] in NONZERO:
+                            return Abs({NEG, POS})
+                        return Abs(FINITE)
+                    return None
+
+                v = Evaluator(p, env_inf).ev(t)
+                ok = v <= Abs({ZERO, POS})
+                check.require(ok, "A1b", f"{name}.membership/{xv}", f"membership({xv}) = {show_abs(v)}" + ("" if ok else
+                              ": at infinity the value must be a number in [0, height] (NaN, infinite or negative results are possible)"), loc(fn),
+                              {"result": show_abs(v)}, exhaustive=True, cases=1)
         # D1 / D2
         reads = {s[2] for s in walk(t) if s[0] == "attr" and s[1] == ("param", "self")}
         check.require("height" in reads, "D1", f"{name}.membership/height", "the returned value depends on self.height" if "height" in reads else
